@@ -246,6 +246,7 @@ type sigCache struct {
 type evalRes struct {
 	fails bool
 	sym   symp
+	h     uint64 // hash of (got, want)
 }
 
 func newSigCache() *sigCache {
@@ -274,6 +275,7 @@ func (s *sigCache) eval(e *env, c *Case) evalRes {
 	r = evalRes{fails: g != wnt}
 	if r.fails {
 		r.sym = symptom(c, g, wnt)
+		r.h = outcomeHash(c, g, wnt)
 	}
 	s.mu.Lock()
 	if len(s.evals) > 400000 {
@@ -552,6 +554,7 @@ func (w *worker) fail(c *Case, got, want outcome) {
 	}
 	sym := symptom(c, g2, w2)
 	cur := c.clone()
+	curH := outcomeHash(c, g2, w2)
 	state := func() string { return cur.key() + "|" + sym.String() }
 	path := []string{state()}
 	for {
@@ -565,13 +568,18 @@ func (w *worker) fail(c *Case, got, want outcome) {
 			return
 		}
 		progressed := false
+		feat := features(cur)
 		for _, mk := range candidates(cur) {
 			d := mk()
 			if d == nil || d.Value == nil && d.Units == nil {
 				continue
 			}
-			if r := w.cache.eval(e, d); r.fails && sym.covers(r.sym) {
-				cur, sym = d, r.sym
+			// A step is kept only if the case still fails with a covered symptom AND it does not bring in a kind
+			// of input the current case does not have (an empty container, another replacer, ...) - unless the
+			// observed and expected results are literally unchanged. Otherwise the descent could leave the defect
+			// it started from and end in a different one that merely looks alike.
+			if r := w.cache.eval(e, d); r.fails && sym.covers(r.sym) && (r.h == curH || !introduces(feat, cur, d)) {
+				cur, sym, curH = d, r.sym, r.h
 				path = append(path, state())
 				progressed = true
 				break
@@ -684,6 +692,67 @@ func objsToArrs(n *Node) *Node {
 	return n
 }
 
+// outcomeHash identifies the pair (observed, expected) up to the choice of the gap string: every copy of the gap
+// in an indentation run (after a line feed) is replaced by one marker, so that the same mis-indentation shown
+// with gap "ab" and with gap " " is the same observation.
+func outcomeHash(c *Case, got, want outcome) uint64 {
+	gap := gapOf(c)
+	if len(gap) == 0 || kindOf(got) != "text" || kindOf(want) != "text" {
+		return core.HashString(string(got) + "\x00" + string(want))
+	}
+	norm := func(o outcome) string {
+		u := unquote(string(o[1:]))
+		var sb strings.Builder
+		for i := 0; i < len(u); i++ {
+			sb.WriteString(escUnit(u[i]))
+			if u[i] == '\n' {
+				for i+len(gap) < len(u) && jm.Str(u[i+1:i+1+len(gap)]).Eq(gap) {
+					sb.WriteString("\\G")
+					i += len(gap)
+				}
+			}
+		}
+		return sb.String()
+	}
+	return core.HashString(norm(got) + "\x00" + norm(want))
+}
+
+// features: the kinds of input a case is made of.
+func features(c *Case) map[string]bool {
+	f := map[string]bool{}
+	switch c.Op {
+	case "parse", "canon":
+		textFeatures(c.Units, f)
+	default:
+		c.Value.kinds(f)
+	}
+	return f
+}
+
+var neutral = map[string]bool{"1": true, "arr": true, "obj": true, "num": true, "str": true}
+
+func introduces(feat map[string]bool, cur, d *Case) bool {
+	switch d.Op {
+	case "parse", "canon":
+		if r := orDefault(d.Reviver, "absent"); r != "absent" && r != orDefault(cur.Reviver, "absent") {
+			return true
+		}
+	default:
+		if r := orDefault(d.Replacer, "none"); r != "none" && r != orDefault(cur.Replacer, "none") {
+			return true
+		}
+		if r := orDefault(d.Indent, "absent"); r != "absent" && r != orDefault(cur.Indent, "absent") {
+			return true
+		}
+	}
+	for k := range features(d) {
+		if !feat[k] && !neutral[k] {
+			return true
+		}
+	}
+	return false
+}
+
 // candidates lists the simplifications of a case, most aggressive first. They are built lazily: in the common
 // situation one of the first few is accepted (or hits the memo) and the rest is never materialised.
 func candidates(c *Case) []func() *Case {
@@ -717,6 +786,19 @@ func candidates(c *Case) []func() *Case {
 		for _, tok := range scalarTokens(c.Units) {
 			if len(tok) < len(c.Units) {
 				units(append(jm.Str{}, tok...))
+			}
+		}
+		// every scalar token -> 1, every string token -> "a"
+		for _, sp := range scalarSpans(c.Units) {
+			sp := sp
+			for _, repl := range []string{"1", `"a"`} {
+				repl := jm.S(repl)
+				if (c.Units[sp[0]] != '"' && len(repl) > 1) || jm.Str(c.Units[sp[0]:sp[1]]).Eq(repl) {
+					continue
+				}
+				with(func(d *Case) {
+					d.Units = append(append(append(jm.Str{}, c.Units[:sp[0]]...), repl...), c.Units[sp[1]:]...)
+				})
 			}
 		}
 		n := len(c.Units)
@@ -923,6 +1005,52 @@ func nodeCandidates(root *Node) []func() *Node {
 // scalarTokens: the strings, numbers and literals of a text (lenient scan).
 func scalarTokens(t jm.Str) []jm.Str {
 	var res []jm.Str
+	for _, sp := range scalarSpans(t) {
+		res = append(res, t[sp[0]:sp[1]])
+	}
+	return res
+}
+
+func scalarSpans(t jm.Str) [][2]int {
+	var res [][2]int
+	lit := func(i int) int {
+		for _, w := range []string{"true", "false", "null"} {
+			if i+len(w) <= len(t) && jm.Str(t[i:i+len(w)]).Eq(jm.S(w)) {
+				return i + len(w)
+			}
+		}
+		return -1
+	}
+	for i := 0; i < len(t); {
+		c := t[i]
+		switch {
+		case c == '"':
+			end := jm.ScanString(t, i)
+			if end < 0 {
+				return res
+			}
+			res = append(res, [2]int{i, end})
+			i = end
+		case c == '-' || c >= '0' && c <= '9':
+			end := jm.ScanNumber(t, i)
+			if end < 0 {
+				i++
+				continue
+			}
+			res = append(res, [2]int{i, end})
+			i = end
+		case lit(i) > 0:
+			res = append(res, [2]int{i, lit(i)})
+			i = lit(i)
+		default:
+			i++
+		}
+	}
+	return res
+}
+
+func scalarTokensOld(t jm.Str) []jm.Str {
+	var res []jm.Str
 	for i := 0; i < len(t); {
 		c := t[i]
 		switch {
@@ -1005,7 +1133,7 @@ func run(r *core.Run) {
 	bounds := map[string]interface{}{}
 	complete := true
 	steps := []func(*core.Run, *sigCache, map[string]interface{}) bool{
-		runCorpus, runStringifyA, runParseGrammar, runStringifyB, runWhitespace, runEdits, runNesting, runSymbols, runStringifyDeep,
+		runCorpus, runStringifyA1, runStringifyB, runParseGrammar, runStringifyA2, runWhitespace, runEdits, runNesting, runSymbols, runStringifyDeep,
 	}
 	var walls, cpus []float64
 	for _, s := range steps {
